@@ -30,8 +30,17 @@ def polyEpApplies (p : SPos) : Bool :=
      let r := rankI pushed
      [f - 1, f + 1].any (fun nf => onBoard nf r && pcAt p.board (sqOf nf r) = mkPc p.side 1))
 
+/-- XOR of `f s` over the squares 0 .. n-1 -/
+def xorSquares (f : Nat → Nat) : Nat → Nat
+  | 0 => 0
+  | n+1 => xorSquares f n ^^^ f n
+
+/-- the piece part: the random of every occupied square -/
+def polyPieces (board : List Nat) : Nat :=
+  xorSquares (fun s => if pcAt board s ≠ 0 then R (polyPieceIdx (pcAt board s) s) else 0) 64
+
 def polyKey (p : SPos) : Nat :=
-  let k := (List.range 64).foldl (fun acc s => if pcAt p.board s ≠ 0 then acc ^^^ R (polyPieceIdx (pcAt p.board s) s) else acc) 0
+  let k := polyPieces p.board
   let k := if p.castling &&& 1 ≠ 0 then k ^^^ R 768 else k
   let k := if p.castling &&& 2 ≠ 0 then k ^^^ R 769 else k
   let k := if p.castling &&& 4 ≠ 0 then k ^^^ R 770 else k
